@@ -116,7 +116,37 @@ class Sym(torch.Tensor):
             return torch.tensor(True)
         if name in ("sum", "mean", "nansum") and len(args) == 1:
             return args[0]       # the traced scalar stands for a 1-element tensor: its reductions are identities
+        if name in ("ones_like", "zeros_like") and len(args) == 1:
+            return Sym(("const", Fraction(1 if name == "ones_like" else 0)))
+        if name in ("cat", "concatenate", "concat") and CAT_PICK is not None:
+            # coordinate-wise reading of a concatenation: inside `with cat_pick(i)` the traced coordinate is one
+            # that comes from the i-th piece (validated entry-wise by T3, like every layout erasure)
+            pieces = args[0] if args else kwargs.get("tensors")
+            if not isinstance(pieces, (tuple, list)) or not 0 <= CAT_PICK < len(pieces):
+                raise Untraceable(f"cat: cannot pick piece {CAT_PICK}")
+            return Sym(e(pieces[CAT_PICK]))
         raise Untraceable(f"untranslated torch function `{name}`")
+
+
+CAT_PICK = None
+
+
+class cat_pick:
+    """`with cat_pick(i): ...` — while tracing, read `torch.cat(pieces)` as a coordinate of `pieces[i]`
+    (outside such a block a concatenation is untraceable: fail closed)."""
+
+    def __init__(self, i: int):
+        self.i = i
+
+    def __enter__(self):
+        global CAT_PICK
+        self.prev, CAT_PICK = CAT_PICK, self.i
+        return self
+
+    def __exit__(self, *exc):
+        global CAT_PICK
+        CAT_PICK = self.prev
+        return False
 
 
 def S(name: str) -> Sym:
